@@ -3,9 +3,11 @@
     (with arguments that are values of their Rust types, [call_wf]) runs to
     completion on the logical stream without a panic and without an uncaught
     error, re-establishes the invariant, never shrinks the data, and - if it
-    returns [Err] - leaves the state and the stream as they were (for
-    [add_point] under the side condition [idx_typed], see [WapiMain.v] for the
-    counterexample without it). *)
+    returns [Err] - leaves the state and the stream as they were.  (Before the
+    repair 8f31314 this needed a side condition for [add_point]: a prototype
+    with a duplicated index attribute of non-integer type made the bounds loop
+    fail after it had updated the Cartesian bounds.  Duplicate names are now
+    rejected, [accepted_idx_typed].) *)
 From Flocq Require Import Binary Bits.
 From E57 Require Import Base.Prelude Base.Floats Spec.PageSpec Model.PagedWriter Model.Prog Model.BsWrite
   Model.Record Model.PcWriter Model.FileBin Spec.BitSpec Spec.FormatSpec Model.Meta Model.MetaFile Model.WriterApi.
@@ -23,15 +25,6 @@ Definition call_wf (c : wcall) : Prop :=
   | PcAddPoint vs => Forall value_wf vs               (* f32 / f64 bit patterns *)
   | _ => True
   end.
-
-(** every record that feeds an index bound has an integer type (true for
-    prototypes without duplicate names: the rule check looks at the first) *)
-Definition idx_typed (proto : list record) : Prop :=
-  forall p, In p proto ->
-    match axis_of (r_name p) with
-    | Some (AxI _) => exists mn mx, r_type p = DInteger mn mx
-    | _ => True
-    end.
 
 (** * The bounds loop *)
 
@@ -182,11 +175,12 @@ Qed.
 
 (** * The invariant *)
 
+(** a finalized point cloud writer refuses [add_point] and [finalize]: nothing is required of it *)
 Definition pc_inv (ps : pcstate) (l : lstream) : Prop :=
   w_proto (ps_w ps) = proto_dtypes (ps_proto ps) /\
-  (contains (ps_proto ps) CartesianX = true \/ contains (ps_proto ps) SphericalAzimuth = true) /\
-  ((pcw_live (ps_w ps) l /\ bounds_cover (ps_proto ps) (ps_bounds ps)) \/
-   (pcw_done (ps_w ps) l /\ ps_bounds ps = none3)).
+  (ps_finalized ps = true \/
+   (ps_finalized ps = false /\ pcw_live (ps_w ps) l /\ bounds_cover (ps_proto ps) (ps_bounds ps) /\
+    idx_typed (ps_proto ps))).
 
 Definition ws_inv (st : wstate) (l : lstream) : Prop :=
   ls_ok l /\ match ws_sub st with SubPc ps => pc_inv ps l | _ => True end.
@@ -196,13 +190,10 @@ Proof. split; [apply ls_init_ok|exact I]. Qed.
 
 Lemma pc_inv_mono ps l l' : pc_inv ps l -> ls_le l l' -> pc_inv ps l'.
 Proof.
-  intros (H1 & H2 & [[H3 H4]|[H3 H4]]) Hle; (split; [exact H1|]; split; [exact H2|]).
-  - left. split; [apply (pcw_live_mono _ l l' H3 Hle)|exact H4].
-  - right. split; [apply (pcw_done_mono _ l l' H3 Hle)|exact H4].
+  intros (H1 & [H2|(H2 & H3 & H4 & H5)]) Hle; (split; [exact H1|]).
+  - left. exact H2.
+  - right. split; [exact H2|]. split; [apply (pcw_live_mono _ l l' H3 Hle)|]. split; [exact H4|exact H5].
 Qed.
-
-Definition st_idx_typed (st : wstate) : Prop :=
-  match ws_sub st with SubPc ps => idx_typed (ps_proto ps) | _ => True end.
 
 (** * The sub-steps *)
 
@@ -213,6 +204,9 @@ Lemma seq_res_no_panic a b : a <> Panic -> b <> Panic -> (a >> b) <> Panic.
 Proof. destruct a as [[]|k|]; cbn [seq_res]; auto; discriminate. Qed.
 
 Lemma if_err_no_panic (c : bool) : (if c then @Err unit EInvalid else Ok tt) <> Panic.
+Proof. destruct c; discriminate. Qed.
+
+Lemma if_ok_no_panic (c : bool) : (if c then Ok tt else @Err unit EInvalid) <> Panic.
 Proof. destruct c; discriminate. Qed.
 
 Lemma validate_flag_no_panic proto f c h : validate_flag proto f c h <> Panic.
@@ -238,9 +232,8 @@ Proof.
   cbv zeta.
   repeat (apply seq_res_no_panic);
     try apply validate_flag_no_panic; try apply integer_if_present_no_panic;
-    try apply not_integer_if_present_no_panic; try apply if_err_no_panic.
-  - destruct (_ && _); [discriminate|apply validate_flag_no_panic].
-  - destruct (forallb _ _); discriminate.
+    try apply not_integer_if_present_no_panic; try apply if_err_no_panic; try apply if_ok_no_panic.
+  destruct (_ && _); [discriminate|apply validate_flag_no_panic].
 Qed.
 
 Lemma validate_name_no_panic s : validate_name s <> Panic.
@@ -251,7 +244,10 @@ Qed.
 Lemma validate_name_start_no_panic s : validate_name_start s <> Panic.
 Proof. unfold validate_name_start. destruct s as [|c r]; [discriminate|]. destruct (_ || _); discriminate. Qed.
 Lemma validate_url_no_panic s : validate_url s <> Panic.
-Proof. unfold validate_url. destruct (_ || _); discriminate. Qed.
+Proof.
+  unfold validate_url. destruct (_ || _); [discriminate|]. destruct s as [|c r]; [discriminate|].
+  destruct (xs_eqb (c :: r) URL_E57); discriminate.
+Qed.
 
 Lemma ext_validate_prototype_no_panic exts : forall proto, ext_validate_prototype proto exts <> Panic.
 Proof.
@@ -280,7 +276,7 @@ Lemma pc_new_step exts guid proto l : ls_ok l -> proto_i64 proto ->
      ps_bounds ps = bounds_new proto /\
      (exists cl, default_color_limits proto = Ok cl /\
                  ps_desc ps = desc_new guid proto (default_intensity_limits proto) cl) /\
-     w_point_count (ps_w ps) = 0).
+     w_point_count (ps_w ps) = 0 /\ ps_finalized ps = false).
 Proof.
   intros Hok Hi64. rewrite wrun_spec_wtry. unfold pc_new.
   rewrite run_bind, run_wlift. cbn [fst snd].
@@ -298,10 +294,10 @@ Proof.
     destruct (accepted_color_limits proto E2) as (cl & Hcl). rewrite Hcl. cbn [wret wrun_spec fst snd].
     right. eexists l', _. split; [reflexivity|].
     split.
-    { split; [exact Hp|]. split; [apply accepted_has_coordinates; exact E2|].
-      left. split; [exact Hlive|apply bounds_new_cover; exact E2]. }
+    { split; [exact Hp|]. right. split; [reflexivity|]. split; [exact Hlive|].
+      split; [apply bounds_new_cover; exact E2|apply accepted_idx_typed; exact E2]. }
     split; [exact Hok'|]. split; [exact Hle|]. split; [reflexivity|]. split; [reflexivity|].
-    split; [reflexivity|]. split; [eauto|]. split; [reflexivity|]. split; [eauto|exact Hc].
+    split; [reflexivity|]. split; [eauto|]. split; [reflexivity|]. split; [eauto|]. split; [exact Hc|reflexivity].
   - unfold pcw_new. rewrite E3. cbn [wlift wbind wrun_spec fst snd]. left. eauto.
   - exfalso. apply (get_max_no_panic _ E3).
 Qed.
@@ -309,18 +305,20 @@ Qed.
 (** [add_point], definitionally: what an accepted call did *)
 Lemma pc_add_point_ok_inv vs ps l l' ps' :
   wrun_spec (pc_add_point vs ps) l = (l', Ok (ps', CrOk)) ->
-  values_ok (w_proto (ps_w ps)) vs = true /\
+  ps_finalized ps = false /\ values_ok (w_proto (ps_w ps)) vs = true /\
   exists b1 w', update_bounds (ps_proto ps) vs (ps_bounds ps) = (b1, Ok tt) /\
-    ps' = mkPcs w' (ps_proto ps) b1 (ps_desc ps) /\
+    ps' = mkPcs w' (ps_proto ps) b1 (ps_desc ps) false /\
     wrun_spec (pcw_add_point vs (ps_w ps)) l = (l', Ok w').
 Proof.
-  unfold pc_add_point. destruct (values_ok (w_proto (ps_w ps)) vs) eqn:Ev; cbn [negb].
+  unfold pc_add_point. destruct (ps_finalized ps) eqn:Ef.
+  { cbn [wret wrun_spec]. intros H. inversion H. }
+  destruct (values_ok (w_proto (ps_w ps)) vs) eqn:Ev; cbn [negb].
   2:{ cbn [wret wrun_spec]. intros H. inversion H. }
   destruct (update_bounds (ps_proto ps) vs (ps_bounds ps)) as [b1 [[]|k|]] eqn:Eb.
   - rewrite run_bind, wrun_spec_wtry. cbn [fst snd].
     destruct (wrun_spec (pcw_add_point vs (ps_w ps)) l) as [l1 [w'|k|]] eqn:Er; cbn [fst snd wret wrun_spec];
       intros H; inversion H; subst.
-    split; [reflexivity|]. exists b1, w'. auto.
+    split; [reflexivity|]. split; [reflexivity|]. exists b1, w'. auto.
   - cbn [wret wrun_spec]. intros H. inversion H.
   - cbn [wrun_spec]. intros H. inversion H.
 Qed.
@@ -328,62 +326,45 @@ Qed.
 Lemma pc_add_point_step vs ps l : pc_inv ps l -> ls_ok l -> Forall value_wf vs ->
   exists l' ps' r, wrun_spec (pc_add_point vs ps) l = (l', Ok (ps', r)) /\
     pc_inv ps' l' /\ ls_ok l' /\ ls_le l l' /\
-    (forall k, r = CrErr k -> idx_typed (ps_proto ps) -> ps' = ps /\ l' = l).
+    (forall k, r = CrErr k -> ps' = ps /\ l' = l).
 Proof.
-  intros (Hp & Hco & Hmode) Hok Hwf. unfold pc_add_point.
-  destruct (values_ok (w_proto (ps_w ps)) vs) eqn:Ev; cbn [negb].
-  2:{ cbn [wret wrun_spec]. exists l, ps, (CrErr EInvalid). split; [reflexivity|].
-      split; [split; [exact Hp|split; [exact Hco|exact Hmode]]|]. split; [exact Hok|].
-      split; [apply ls_le_refl|]. auto. }
-  assert (Hlen : length vs = length (ps_proto ps)).
-  { rewrite (values_ok_length _ _ Ev), Hp. unfold proto_dtypes. apply map_length. }
-  destruct Hmode as [[Hlive Hcov]|[Hdone Hb]].
-  - (* live *)
-    pose proof (update_bounds_no_panic (ps_proto ps) vs (ps_bounds ps) Hlen) as Hnp.
-    pose proof (update_bounds_shape (ps_proto ps) vs (ps_bounds ps)) as Hsh.
-    destruct (update_bounds (ps_proto ps) vs (ps_bounds ps)) as [b1 [[]|k|]] eqn:Eb; cbn [fst snd] in *;
-      [| |contradiction].
-    + rewrite run_bind, wrun_spec_wtry.
-      destruct (add_point_live vs (ps_w ps) l Hlive Hok Ev Hwf) as (l' & w' & Hrun & Hlive' & Hok' & Hle & Hp' & _).
-      rewrite Hrun. cbn [fst snd wret wrun_spec].
-      exists l'. eexists. exists CrOk. split; [reflexivity|].
-      split.
-      { split; [cbn [ps_w ps_proto]; congruence|]. split; [exact Hco|].
-        left. split; [exact Hlive'|]. cbn [ps_proto ps_bounds]. apply (cover_shape _ _ _ Hsh Hcov). }
-      split; [exact Hok'|]. split; [exact Hle|]. intros k Hk. discriminate.
-    + cbn [wret wrun_spec]. exists l. eexists. exists (CrErr k). split; [reflexivity|].
-      split.
-      { split; [exact Hp|]. split; [exact Hco|]. left. split; [exact Hlive|].
-        cbn [ps_proto ps_bounds]. apply (cover_shape _ _ _ Hsh Hcov). }
-      split; [exact Hok|]. split; [apply ls_le_refl|].
-      intros k' _ Hit. exfalso.
-      rewrite Hp in Ev. pose proof (update_bounds_ok _ _ _ Ev Hcov Hit) as Hb. rewrite Eb in Hb. discriminate.
-  - (* after finalize: the bounds are gone, the call fails before anything changes *)
-    rewrite Hb. rewrite (update_bounds_done _ _ Hlen (coordinates_axis _ Hco)).
-    cbn [wret wrun_spec]. exists l. eexists. exists (CrErr EInternal). split; [reflexivity|].
-    split.
-    { split; [exact Hp|]. split; [exact Hco|]. right. split; [exact Hdone|reflexivity]. }
-    split; [exact Hok|]. split; [apply ls_le_refl|].
-    intros k _ _. split; [|reflexivity]. destruct ps; cbn in *. subst. reflexivity.
+  intros (Hp & Hmode) Hok Hwf. unfold pc_add_point.
+  assert (Same : exists l' ps' r, (l, Ok (ps, CrErr EInvalid)) = (l', @Ok (pcstate * call_result) (ps', r)) /\
+            pc_inv ps' l' /\ ls_ok l' /\ ls_le l l' /\ (forall k, r = CrErr k -> ps' = ps /\ l' = l)).
+  { exists l, ps, (CrErr EInvalid). split; [reflexivity|]. split; [split; [exact Hp|exact Hmode]|].
+    split; [exact Hok|]. split; [apply ls_le_refl|]. auto. }
+  destruct Hmode as [Hfin|(Hfin & Hlive & Hcov & Hit)]; rewrite Hfin; [cbn [wret wrun_spec]; exact Same|].
+  destruct (values_ok (w_proto (ps_w ps)) vs) eqn:Ev; cbn [negb]; [|cbn [wret wrun_spec]; exact Same].
+  pose proof (update_bounds_shape (ps_proto ps) vs (ps_bounds ps)) as Hsh.
+  assert (Hb : snd (update_bounds (ps_proto ps) vs (ps_bounds ps)) = Ok tt).
+  { apply update_bounds_ok; [rewrite <- Hp; exact Ev|exact Hcov|exact Hit]. }
+  destruct (update_bounds (ps_proto ps) vs (ps_bounds ps)) as [b1 r] eqn:Eb. cbn [fst snd] in *. subst r.
+  rewrite run_bind, wrun_spec_wtry.
+  destruct (add_point_live vs (ps_w ps) l Hlive Hok Ev Hwf) as (l' & w' & Hrun & Hlive' & Hok' & Hle & Hp' & _).
+  rewrite Hrun. cbn [fst snd wret wrun_spec].
+  exists l'. eexists. exists CrOk. split; [reflexivity|].
+  split.
+  { split; [cbn [ps_w ps_proto]; congruence|]. right. split; [reflexivity|]. split; [exact Hlive'|].
+    cbn [ps_proto ps_bounds]. split; [apply (cover_shape _ _ _ Hsh Hcov)|exact Hit]. }
+  split; [exact Hok'|]. split; [exact Hle|]. intros k Hk. discriminate.
 Qed.
 
 Lemma pc_finalize_step ps l : pc_inv ps l -> ls_ok l ->
-  exists l' ps' d, wrun_spec (pc_finalize ps) l = (l', Ok (ps', Some d, CrOk)) /\
+  (ps_finalized ps = true /\ wrun_spec (pc_finalize ps) l = (l, Ok (ps, None, CrErr EInvalid))) \/
+  (ps_finalized ps = false /\
+   exists l' ps' d, wrun_spec (pc_finalize ps) l = (l', Ok (ps', Some d, CrOk)) /\
     pc_inv ps' l' /\ ls_ok l' /\ ls_le l l' /\
-    d = desc_finish (ps_desc ps) (ps_bounds ps) (w_section_offset (ps_w ps)) (w_point_count (ps_w ps)).
+    d = desc_finish (ps_desc ps) (ps_bounds ps) (w_section_offset (ps_w ps)) (w_point_count (ps_w ps))).
 Proof.
-  intros (Hp & Hco & Hmode) Hok. unfold pc_finalize. rewrite run_bind, wrun_spec_wtry.
-  destruct Hmode as [[Hlive Hcov]|[Hdone Hb]].
-  - destruct (finalize_live (ps_w ps) l Hlive Hok) as (l' & w2 & Hrun & Hdone & Hok' & Hle & Hp2 & _).
+  intros (Hp & Hmode) Hok. unfold pc_finalize.
+  destruct Hmode as [Hfin|(Hfin & Hlive & Hcov & Hit)]; rewrite Hfin.
+  - left. split; reflexivity.
+  - right. split; [reflexivity|]. rewrite run_bind, wrun_spec_wtry.
+    destruct (finalize_live (ps_w ps) l Hlive Hok) as (l' & w2 & Hrun & Hdone & Hok' & Hle & Hp2 & _).
     rewrite Hrun. cbn [fst snd wret wrun_spec].
     exists l'. eexists. eexists. split; [reflexivity|].
     split; [|split; [exact Hok'|split; [exact Hle|reflexivity]]].
-    split; [cbn [ps_w ps_proto]; congruence|]. split; [exact Hco|]. right. split; [exact Hdone|reflexivity].
-  - destruct (finalize_done (ps_w ps) l Hdone Hok) as (l' & Hrun & Hdone' & Hok' & Hle).
-    rewrite Hrun. cbn [fst snd wret wrun_spec].
-    exists l'. eexists. eexists. split; [reflexivity|].
-    split; [|split; [exact Hok'|split; [exact Hle|reflexivity]]].
-    split; [exact Hp|]. split; [exact Hco|]. right. split; [exact Hdone'|reflexivity].
+    split; [cbn [ps_w ps_proto]; congruence|]. left. reflexivity.
 Qed.
 
 Lemma im_blobs_run data mask l : ls_ok l ->
@@ -407,83 +388,90 @@ Variable gen_xml : file_meta -> res (list N).
 Variable lib_version : xstring.
 Hypothesis gen_xml_total : forall m, gen_xml m <> Panic.
 
-Lemma im_add_projection_step st im data mask mk l :
-  ws_sub st = SubIm im -> ws_inv st l ->
-  exists l' st' r, wrun_spec (im_add_projection st im data mask mk) l = (l', Ok (st', r)) /\
+Lemma im_add_projection_step st im fin data mask mk l :
+  ws_sub st = SubIm im fin -> ws_inv st l ->
+  exists l' st' r, wrun_spec (im_add_projection st im fin data mask mk) l = (l', Ok (st', r)) /\
     ws_inv st' l' /\ ls_le l l' /\ (forall k, r = CrErr k -> st' = st /\ l' = l) /\
-    (r = CrOk -> has_projection im = false).
+    (r = CrOk -> fin = false /\ has_projection im = false).
 Proof.
   intros Hsub [Hok Hs]. unfold im_add_projection.
-  destruct (has_projection im) eqn:Ep.
-  - cbn [wret wrun_spec]. exists l, st, (CrErr EInvalid). split; [reflexivity|].
-    split; [split; [exact Hok|exact Hs]|]. split; [apply ls_le_refl|]. split; [auto|discriminate].
-  - rewrite run_bind, wrun_spec_wtry.
-    destruct (im_blobs_run data mask l Hok) as (l' & b & m & Hrun & Hok' & Hle).
-    rewrite Hrun. cbn [fst snd wret wrun_spec].
-    eexists l', _, CrOk. split; [reflexivity|].
-    split; [split; [exact Hok'|cbn [set_sub ws_sub]; exact I]|]. split; [exact Hle|].
-    split; [discriminate|reflexivity].
+  assert (Same : exists l' st' r, (l, Ok (st, CrErr EInvalid)) = (l', @Ok (wstate * call_result) (st', r)) /\
+            ws_inv st' l' /\ ls_le l l' /\ (forall k, r = CrErr k -> st' = st /\ l' = l) /\
+            (r = CrOk -> fin = false /\ has_projection im = false)).
+  { exists l, st, (CrErr EInvalid). split; [reflexivity|].
+    split; [split; [exact Hok|exact Hs]|]. split; [apply ls_le_refl|]. split; [auto|discriminate]. }
+  destruct fin; [cbn [wret wrun_spec]; exact Same|].
+  destruct (has_projection im) eqn:Ep; [cbn [wret wrun_spec]; exact Same|].
+  rewrite run_bind, wrun_spec_wtry.
+  destruct (im_blobs_run data mask l Hok) as (l' & b & m & Hrun & Hok' & Hle).
+  rewrite Hrun. cbn [fst snd wret wrun_spec].
+  eexists l', _, CrOk. split; [reflexivity|].
+  split; [split; [exact Hok'|cbn [set_sub ws_sub]; exact I]|]. split; [exact Hle|].
+  split; [discriminate|auto].
 Qed.
 
 Theorem wapi_step_ok : forall st l c, ws_inv st l -> call_wf c ->
   exists l' st' r, wrun_spec (wapi_step gen_xml lib_version st c) l = (l', Ok (st', r)) /\
     ws_inv st' l' /\ ls_le l l' /\
-    (forall k, r = CrErr k -> st_idx_typed st -> st' = st /\ l' = l).
+    (forall k, r = CrErr k -> st' = st /\ l' = l).
 Proof.
   intros st l c Hinv Hwf. pose proof Hinv as [Hok Hs].
-  assert (Same : forall r, (forall k, r <> CrErr k) \/ True ->
+  assert (Same : forall r,
             exists l' st' r', (l, Ok (st, r)) = (l', @Ok (wstate * call_result) (st', r')) /\
-              ws_inv st' l' /\ ls_le l l' /\ (forall k, r' = CrErr k -> st_idx_typed st -> st' = st /\ l' = l)).
-  { intros r _. exists l, st, r. split; [reflexivity|]. split; [exact Hinv|]. split; [apply ls_le_refl|]. auto. }
+              ws_inv st' l' /\ ls_le l l' /\ (forall k, r' = CrErr k -> st' = st /\ l' = l)).
+  { intros r. exists l, st, r. split; [reflexivity|]. split; [exact Hinv|]. split; [apply ls_le_refl|]. auto. }
   unfold wapi_step. destruct (ws_open st) eqn:Eo; cbn [negb].
-  2:{ destruct c; try (cbn [wret wrun_spec]; apply Same; auto).
+  2:{ destruct c; try (cbn [wret wrun_spec]; apply Same).
       rewrite run_bind, wrun_spec_wtry.
       destruct (writer_init_run l Hok) as (H1 & H2 & H3).
       rewrite H1. cbn [fst snd wret wrun_spec].
       eexists _, _, CrOk. split; [reflexivity|]. split; [split; [exact H2|exact I]|]. split; [exact H3|discriminate]. }
-  destruct (ws_sub st) as [|ps|im] eqn:Esub.
+  destruct (ws_sub st) as [|ps|im fin] eqn:Esub.
   - (* top level *)
-    destruct c; try (cbn [wret wrun_spec]; apply Same; auto).
-    + (* SetCoordinateMetadata *)
-      destruct (ws_root st). cbn [wret wrun_spec]. eexists l, _, CrOk. split; [reflexivity|].
+    destruct c; try (cbn [wret wrun_spec]; apply Same).
+    + destruct (ws_root st). cbn [wret wrun_spec]. eexists l, _, CrOk. split; [reflexivity|].
       split; [split; [exact Hok|exact I]|]. split; [apply ls_le_refl|discriminate].
     + destruct (ws_root st). cbn [wret wrun_spec]. eexists l, _, CrOk. split; [reflexivity|].
       split; [split; [exact Hok|exact I]|]. split; [apply ls_le_refl|discriminate].
     + (* RegisterExtension *)
       destruct (validate_name ns >> validate_name_start ns >> validate_url url) as [[]|k|] eqn:Ev.
-      * destruct (url_registered (ws_exts st) url); [cbn [wret wrun_spec]; apply Same; auto|].
-        destruct (ext_registered (ws_exts st) ns); [cbn [wret wrun_spec]; apply Same; auto|].
+      * destruct (url_registered (ws_exts st) url); [cbn [wret wrun_spec]; apply Same|].
+        destruct (ext_registered (ws_exts st) ns); [cbn [wret wrun_spec]; apply Same|].
         cbn [wret wrun_spec]. eexists l, _, CrOk. split; [reflexivity|].
         split; [split; [exact Hok|exact I]|]. split; [apply ls_le_refl|discriminate].
-      * cbn [wret wrun_spec]. apply Same; auto.
+      * cbn [wret wrun_spec]. apply Same.
       * exfalso. revert Ev. apply seq_res_no_panic; [apply validate_name_no_panic|].
         apply seq_res_no_panic; [apply validate_name_start_no_panic|apply validate_url_no_panic].
     + (* AddBlob *)
+      destruct (ws_finalized st); [cbn [wret wrun_spec]; apply Same|].
       rewrite run_bind, wrun_spec_wtry.
       destruct (blob_write_run data l Hok) as (l' & Hrun & Hok' & Hle).
       rewrite Hrun. cbn [fst snd wret wrun_spec].
       eexists l', st, _. split; [reflexivity|]. split; [split; [exact Hok'|rewrite Esub; exact I]|].
       split; [exact Hle|discriminate].
     + (* AddPointcloud *)
+      destruct (ws_finalized st); [cbn [wret wrun_spec]; apply Same|].
       rewrite run_bind.
       destruct (pc_new_step (ws_exts st) guid proto l Hok Hwf) as [(k & Hrun)|(l' & ps & Hrun & Hpi & Hok' & Hle & _)].
-      * rewrite Hrun. cbn [fst snd wret wrun_spec]. apply Same; auto.
+      * rewrite Hrun. cbn [fst snd wret wrun_spec]. apply Same.
       * rewrite Hrun. cbn [fst snd wret wrun_spec]. eexists l', _, CrOk. split; [reflexivity|].
         split; [split; [exact Hok'|cbn [set_sub ws_sub]; exact Hpi]|]. split; [exact Hle|discriminate].
     + (* AddImage *)
+      destruct (ws_finalized st); [cbn [wret wrun_spec]; apply Same|].
       cbn [wret wrun_spec]. eexists l, _, CrOk. split; [reflexivity|].
       split; [split; [exact Hok|exact I]|]. split; [apply ls_le_refl|discriminate].
     + (* Finalize *)
+      destruct (ws_finalized st); [cbn [wret wrun_spec]; apply Same|].
       pose proof (gen_xml_total (ws_meta st)) as Hg.
       destruct (gen_xml (ws_meta st)) as [xml|k|]; [| |contradiction].
       * rewrite run_bind, wrun_spec_wtry.
         destruct (writer_finalize_run xml l Hok) as (l' & Hrun & Hok' & Hle).
         rewrite Hrun. cbn [fst snd wret wrun_spec].
-        eexists l', st, CrOk. split; [reflexivity|]. split; [split; [exact Hok'|rewrite Esub; exact I]|].
+        eexists l', _, CrOk. split; [reflexivity|]. split; [split; [exact Hok'|exact I]|].
         split; [exact Hle|discriminate].
-      * cbn [wret wrun_spec]. apply Same; auto.
+      * cbn [wret wrun_spec]. apply Same.
   - (* point cloud writer *)
-    destruct c; try (cbn [wret wrun_spec]; apply Same; auto).
+    destruct c; try (cbn [wret wrun_spec]; apply Same).
     + (* PcSet *)
       cbn [wret wrun_spec]. eexists l, _, CrOk. split; [reflexivity|].
       split; [split; [exact Hok|cbn [set_sub ws_sub]; exact Hs]|]. split; [apply ls_le_refl|discriminate].
@@ -491,47 +479,53 @@ Proof.
       destruct (pc_add_point_step values ps l Hs Hok Hwf) as (l' & ps' & r & Hrun & Hpi & Hok' & Hle & Herr).
       rewrite run_bind, Hrun. cbn [fst snd wret wrun_spec].
       eexists l', _, r. split; [reflexivity|]. split; [split; [exact Hok'|cbn [set_sub ws_sub]; exact Hpi]|].
-      split; [exact Hle|]. intros k Hk Hit. unfold st_idx_typed in Hit. rewrite Esub in Hit.
-      destruct (Herr k Hk Hit) as [-> ->]. split; [|reflexivity].
+      split; [exact Hle|]. intros k Hk.
+      destruct (Herr k Hk) as [-> ->]. split; [|reflexivity].
       destruct st; cbn in *. subst. reflexivity.
     + (* PcFinalize *)
-      destruct (pc_finalize_step ps l Hs Hok) as (l' & ps' & d & Hrun & Hpi & Hok' & Hle & _).
-      rewrite run_bind, Hrun. cbn [fst snd wret wrun_spec].
-      eexists l', _, CrOk. split; [reflexivity|]. split; [split; [exact Hok'|cbn [ws_sub]; exact Hpi]|].
-      split; [exact Hle|discriminate].
+      destruct (pc_finalize_step ps l Hs Hok) as [(Hfin & Hrun)|(Hfin & l' & ps' & d & Hrun & Hpi & Hok' & Hle & _)].
+      * rewrite run_bind, Hrun. cbn [fst snd wret wrun_spec].
+        eexists l, _, (CrErr EInvalid). split; [reflexivity|].
+        split; [split; [exact Hok|cbn [ws_sub]; exact Hs]|]. split; [apply ls_le_refl|].
+        intros k _. split; [|reflexivity]. destruct st; cbn in *. subst. reflexivity.
+      * rewrite run_bind, Hrun. cbn [fst snd wret wrun_spec].
+        eexists l', _, CrOk. split; [reflexivity|]. split; [split; [exact Hok'|cbn [ws_sub]; exact Hpi]|].
+        split; [exact Hle|discriminate].
     + (* PcDrop *)
       cbn [wret wrun_spec]. eexists l, _, CrOk. split; [reflexivity|].
       split; [split; [exact Hok|exact I]|]. split; [apply ls_le_refl|discriminate].
   - (* image writer *)
-    destruct c; try (cbn [wret wrun_spec]; apply Same; auto).
+    destruct c; try (cbn [wret wrun_spec]; apply Same).
     + cbn [wret wrun_spec]. eexists l, _, CrOk. split; [reflexivity|].
       split; [split; [exact Hok|exact I]|]. split; [apply ls_le_refl|discriminate].
     + (* visual reference *)
+      destruct fin; [cbn [wret wrun_spec]; apply Same|].
       rewrite run_bind, wrun_spec_wtry.
       destruct (im_blobs_run data mask l Hok) as (l' & b & m & Hrun & Hok' & Hle).
       rewrite Hrun. cbn [fst snd wret wrun_spec].
       eexists l', _, CrOk. split; [reflexivity|]. split; [split; [exact Hok'|exact I]|]. split; [exact Hle|discriminate].
-    + destruct (im_add_projection_step st im data mask
+    + destruct (im_add_projection_step st im fin data mask
                   (fun b m => PPinhole (mkPinhole (mkImageBlob b fmt) m (php_width props) (php_height props)
                      (php_focal_length props) (php_pixel_width props) (php_pixel_height props)
                      (php_principal_x props) (php_principal_y props))) l Esub Hinv)
         as (l' & st' & r & Hrun & Hi' & Hle & Herr & _).
-      exists l', st', r. split; [exact Hrun|]. split; [exact Hi'|]. split; [exact Hle|]. intros k Hk _. apply (Herr k Hk).
-    + destruct (im_add_projection_step st im data mask
+      exists l', st', r. split; [exact Hrun|]. split; [exact Hi'|]. split; [exact Hle|exact Herr].
+    + destruct (im_add_projection_step st im fin data mask
                   (fun b m => PSpherical (mkSphImg (mkImageBlob b fmt) m (spp_width props) (spp_height props)
                      (spp_pixel_width props) (spp_pixel_height props))) l Esub Hinv)
         as (l' & st' & r & Hrun & Hi' & Hle & Herr & _).
-      exists l', st', r. split; [exact Hrun|]. split; [exact Hi'|]. split; [exact Hle|]. intros k Hk _. apply (Herr k Hk).
-    + destruct (im_add_projection_step st im data mask
+      exists l', st', r. split; [exact Hrun|]. split; [exact Hi'|]. split; [exact Hle|exact Herr].
+    + destruct (im_add_projection_step st im fin data mask
                   (fun b m => PCylindrical (mkCylImg (mkImageBlob b fmt) m (cyp_width props) (cyp_height props)
                      (cyp_radius props) (cyp_principal_y props) (cyp_pixel_width props) (cyp_pixel_height props))) l Esub Hinv)
         as (l' & st' & r & Hrun & Hi' & Hle & Herr & _).
-      exists l', st', r. split; [exact Hrun|]. split; [exact Hi'|]. split; [exact Hle|]. intros k Hk _. apply (Herr k Hk).
+      exists l', st', r. split; [exact Hrun|]. split; [exact Hi'|]. split; [exact Hle|exact Herr].
     + (* ImFinalize *)
+      destruct fin; [cbn [wret wrun_spec]; apply Same|].
       destruct (im_visual_reference im), (im_projection im); cbn [wret wrun_spec];
         try (eexists l, _, CrOk; split; [reflexivity|]; split; [split; [exact Hok|exact I]|];
              split; [apply ls_le_refl|discriminate]).
-      apply Same; auto.
+      apply Same.
     + cbn [wret wrun_spec]. eexists l, _, CrOk. split; [reflexivity|].
       split; [split; [exact Hok|exact I]|]. split; [apply ls_le_refl|discriminate].
 Qed.
